@@ -325,7 +325,8 @@ pub fn cold_start(cx: &mut Cx) {
     cx.count("probe.cold_start_of_a_child_process");
     let sidx = if suite == Suite::from_idx(0) { 0 } else { 1 };
     cx.step(launcher, "cold-start-child", StepOpts::default(), move || {
-        let exe = std::env::current_exe().map_err(|e| e.to_string())?;
+        // (/proc/self/exe stays executable when the file was replaced on disk by a rebuild)
+        let exe = if std::path::Path::new("/proc/self/exe").exists() { std::path::PathBuf::from("/proc/self/exe") } else { std::env::current_exe().map_err(|e| e.to_string())? };
         let out = std::process::Command::new(exe).args(["coldstart", &sidx.to_string(), &seed.to_string(), &n.to_string()]).output().map_err(|e| e.to_string())?;
         Ok::<_, String>((String::from_utf8_lossy(&out.stdout).to_string(), out.status.code()))
     }, move |cx, st| {
